@@ -207,6 +207,34 @@ func runC13(c *Ctx) {
 		}
 	}
 
+	// ack channel: unbuffered, so an acknowledgement can only be consumed by a DWR that is waiting for it
+	{
+		key := fname(hs) + ":ack-channel-unbuffered"
+		var mk *ssa.MakeChan
+		flow.Instrs(hs, func(in ssa.Instruction) {
+			if m, ok := in.(*ssa.MakeChan); ok {
+				if ch, ok := m.Type().Underlying().(*types.Chan); ok {
+					if st, ok := ch.Elem().Underlying().(*types.Struct); ok && st.NumFields() == 0 {
+						mk = m
+					}
+				}
+			}
+		})
+		if mk == nil {
+			r.Undecided("R2", key, c.fpos(hs), "cannot find the acknowledgement channel")
+		} else {
+			k, ok := flow.ConstInt(mk.Size)
+			drained := false
+			// or: the DWR sender drains the channel before its first write
+			for _, in := range rl.fn.Blocks[0].Instrs {
+				if s, ok := in.(*ssa.Select); ok && !s.Blocking {
+					drained = true
+				}
+			}
+			r.Check((ok && k == 0) || drained, "R2", key, c.pos(mk), "the acknowledgement channel is unbuffered (or drained before each request): a stale DWA cannot acknowledge a later DWR", "the acknowledgement channel is buffered and never drained: a surplus or late DWA is banked and acknowledges the next DWR, so a peer that then goes silent is not detected for that request")
+		}
+	}
+
 	// ---- R3 ----
 	c.c13DWA()
 	// ---- R4 ----
@@ -295,29 +323,49 @@ func (c *Ctx) c13DWR() {
 	}
 	r.Role("DWRHandler", fname(h))
 	var ans *ssa.Call
+	var ansFn *ssa.Function
 	var write ssa.CallInstruction
+	var helperCall *ssa.Call
 	for _, ci := range flow.CallInstrs(h) {
 		if call, ok := ci.(*ssa.Call); ok && flow.IsCallTo(call, pkgDiam, "Message", "Answer") {
-			ans = call
+			ans, ansFn = call, h
 		}
 		if isMessageWrite(ci) {
 			write = ci
 		}
 	}
+	if ans == nil && write != nil {
+		// the answer may be built by a package-local helper given the request
+		if hc, ok := flow.Peel(write.Common().Args[0]).(*ssa.Call); ok {
+			if g := flow.StaticCallee(hc); g != nil && g.Blocks != nil && pkgOf(g).Path() == pkgSM {
+				for _, ci := range flow.CallInstrs(g) {
+					if call, ok := ci.(*ssa.Call); ok && flow.IsCallTo(call, pkgDiam, "Message", "Answer") {
+						ans, ansFn, helperCall = call, g, hc
+					}
+				}
+			}
+		}
+	}
 	key := fname(h) + ":success-dwa"
 	switch {
 	case ans == nil:
-		r.Fail("R4", key, c.fpos(h), "the DWR handler never builds an answer")
+		r.Fail("R4", key, c.fpos(h), "the DWA is not built with Answer() from the received request")
 	default:
 		code, ok := flow.ConstInt(ans.Call.Args[1])
-		fromReq := len(h.Params) == 2 && flow.Peel(ans.Call.Args[0]) == ssa.Value(h.Params[1])
-		r.Check(ok && code == 2001 && fromReq, "R4", key, c.pos(ans), "answer = m.Answer(Success) of the received request", "the DWA is not built as Answer(2001) of the received DWR")
+		fromReq := false
+		if ansFn == h {
+			fromReq = len(h.Params) == 2 && flow.Peel(ans.Call.Args[0]) == ssa.Value(h.Params[1])
+		} else if p, isP := flow.Peel(ans.Call.Args[0]).(*ssa.Parameter); isP && helperCall != nil {
+			idx := paramIndex(ansFn, p)
+			fromReq = idx >= 0 && idx < len(helperCall.Call.Args) && len(h.Params) == 2 && flow.Peel(helperCall.Call.Args[idx]) == ssa.Value(h.Params[1])
+		}
+		r.Check(ok && code == 2001 && fromReq, "R4", key, c.pos(ans), "answer = Answer(Success) of the received request", "the DWA is not built as Answer(2001) of the received DWR")
 	}
 	key = fname(h) + ":written-to-same-conn"
 	if write == nil {
 		r.Fail("R4", key, c.fpos(h), "the DWA is never written")
 	} else {
-		okRecv := ans != nil && derivesFromAnswer(flow.Peel(write.Common().Args[0]), ans)
+		okRecv := ans != nil && (derivesFromAnswer(flow.Peel(write.Common().Args[0]), ans) || (helperCall != nil && flow.Peel(write.Common().Args[0]) == ssa.Value(helperCall)))
 		okConn := len(h.Params) == 2 && flow.Peel(write.Common().Args[1]) == ssa.Value(h.Params[0])
 		// written on every path after a successful parse: not guarded by anything but parse success
 		r.Check(okRecv && okConn, "R4", key, c.pos(write), "the answer built from the request is written to the connection the request arrived on", "the DWA written is not the answer to this request, or goes to another connection")
